@@ -128,7 +128,7 @@ def extra(tier, seed, col):
     sink = _Sink()
     hypothesis_run(me, tier, seed * 1000 + 992, 200 if tier == 'quick' else 2000, sink)
     cases = sink.cases
-    seeds = ['0', '1', 'random'] if tier == 'quick' else ['0', '1', '2', '17', 'random', 'random']
+    seeds = ['0', '1', str(1000 + seed)] if tier == 'quick' else ['0', '1', '2', '17', str(1000 + seed), str(77000 + seed)]
     outs = {}
     for i, hs in enumerate(seeds):
         outs['%s#%d' % (hs, i)] = hash_seed_run(cases, [hs], worker='sample')[hs]
@@ -139,7 +139,7 @@ def extra(tier, seed, col):
             compared += 1
             if outs[k][i] != outs[keys[0]][i]:
                 col.record_failure('sampler:hash-seed', 'samples differ between interpreter runs %s and %s' % (keys[0], k),
-                                   dict(c, hash_seeds=['0', '1', 'random']), 'hash-seed')
+                                   dict(c, hash_seeds=['0', '1', '2']), 'hash-seed')
                 break
     # histories
     stats = dict(histories=0, steps=0, pairs_compared=0, rules={})
